@@ -42,6 +42,12 @@ LEVEL_TEXT += (
     "in the owner f2t[ori, b] and scatters to (slot, owner); type tables "
     "and node permutations are decided by evaluating the module "
     "constants.")
+LEVEL_TEXT += (
+    " Added in the hunting round (defects found by independent agents "
+    "on the unchanged tree, DESIGN.md 9.4 / 9.6): "
+    "tag names containing the separator, empty tags, and the "
+    "connectivity of unsorted triangle meshes through every loader "
+    "(open findings).")
 LEVEL_NOTE = ("Trusted: meshio reads what it writes; numpy savez/load, "
               "nonzero/sort/argsort semantics.")
 EXPLANATION = "Symmetry / typing / effect rules on the I/O code."
